@@ -120,7 +120,12 @@ def make_case(i, rng, tier):
     ops = []
     for _ in range(rng.randint(1, 12)):
         ops.append(gen_op(rng, base, fields, prop))
-    return {"base": base, "fields": fields, "prop": prop, "opts": opts, "init": init, "ops": ops}
+    # the same declaration reached through inheritance: every field is declared on a base class whose own options differ
+    # (immutable / ignore_delete_nonexistent / collect_errors flipped); the class under test only adds its options
+    inherit = rng.random() < 0.2
+    if rng.random() < 0.15 and "immutable" not in opts and inherit:
+        opts["immutable"] = True
+    return {"base": base, "fields": fields, "prop": prop, "opts": opts, "init": init, "ops": ops, "inherit": inherit}
 
 
 def gen_value(rng, f):
@@ -220,7 +225,19 @@ def build(case):
         getter.__annotations__ = {"return": PROP_RET.get(t, int)}
         getter.__name__ = case["prop"].get("name", "prop")
         ns[getter.__name__] = property(Field(dependencies=[dep])(getter) if case["prop"]["with_field"] else getter)
+    if case.get("inherit"):
+        bo = dict(o)
+        for k in ("immutable", "ignore_delete_nonexistent", "collect_errors"):
+            bo[k] = not bo.get(k, False)
+        ns["__options__"] = Options(**bo)
+        ns["__qualname__"] = name + "Base"
+        parent = type(basecls)(name + "Base", (basecls,), ns)
+        _BASES.append(parent)
+        return type(basecls)(name, (parent,), {"__module__": "vmon_generated", "__qualname__": name, "__options__": Options(**o)})
     return type(basecls)(name, (basecls,), ns)
+
+
+_BASES = []
 
 
 def _is_none(v):
@@ -283,7 +300,8 @@ def check_invariants(case, inst, snap, init_snap):
             out.append(("I4-attribute-access-raises", f"getattr({f['name']}) raised {snap.av_err[f['name']]}"))
         if f["required"] and f["name"] not in snap.av:
             out.append(("I2-required-missing", f"required field {f['name']} is gone"))
-        if f["immutable"] and not V.approx_eq(snap.av.get(f["name"], "<absent>"), init_snap.av.get(f["name"], "<absent>")):
+        if (f["immutable"] or case["opts"].get("immutable")) and not V.approx_eq(snap.av.get(f["name"], "<absent>"), init_snap.av.get(f["name"], "<absent>")):
+            # (Options(immutable=True) on the class makes every field immutable)
             out.append(("I3-immutable-changed", f"immutable field {f['name']}: {init_snap.av.get(f['name'], '<absent>')!r} -> {snap.av.get(f['name'], '<absent>')!r}"))
         if snap.kv is not None:
             in_kv = out_name in snap.kv
@@ -389,7 +407,7 @@ def run_case(case, ctx):
         init_snap = Snap(inst, case)
         bad0 = check_invariants(case, inst, init_snap, init_snap)
         shape = (case["base"], tuple((f["type"], f["required"], bool(f["alias"]), f["ci"], f["no_output"], f["immutable"]) for f in case["fields"]),
-                 bool(case["prop"]), tuple(sorted((k, str(v)) for k, v in case["opts"].items())))
+                 bool(case["prop"]), tuple(sorted((k, str(v)) for k, v in case["opts"].items())), bool(case.get("inherit")))
         hist = []
         if bad0:
             code, text = bad0[0]
@@ -455,6 +473,8 @@ def run_case(case, ctx):
         try:
             from utype.parser import base as pbase
             pbase.__parsers__.pop(cls, None)
+            while _BASES:
+                pbase.__parsers__.pop(_BASES.pop(), None)
         except Exception:
             pass
 
@@ -488,7 +508,8 @@ def describe(case):
             if f[k]:
                 s += " " + k
         fs.append(s)
-    return {"base": case["base"], "options": case["opts"], "fields": fs, "property": case["prop"]}
+    return {"base": case["base"], "options": case["opts"], "fields": fs, "property": case["prop"],
+            "fields_inherited_from_a_base_with_other_options": bool(case.get("inherit"))}
 
 
 def conclusive(m, tier):
